@@ -59,7 +59,7 @@ def strategy(tier):
         "follow": st.lists(st.tuples(st.integers(0, 15), st.integers(1, 4), st.booleans()), max_size=5).map(lambda l: [list(x) for x in l]),
         "other": st.lists(st.integers(0, 15), max_size=5),
         "zero_before_clear": st.sampled_from([0, 0, 1]),
-        "huge_count": st.sampled_from([0, 0, 0, 0, 0, 0, 0, 0, 1, 2, 6]),
+        "huge_count": st.sampled_from([0, 0, 0, 0, 0, 0, 0, 0, 1, 2, 6, 7]),
     })
     base = st.one_of(
         bloom.case_strategy(tier, max_ops=20).map(tag("bloom")),
@@ -128,8 +128,12 @@ def _bloom_target(ctx, d, counting, case):
     if hc and kind in ("bloom", "ondisk") and not counting and o.elements_added >= 0:
         # the documented settable element counter at / just above what the footer's unsigned 64-bit field can hold: an export of
         # such a filter may be refused (struct.error) - but refused or not, it is a query and changes nothing
-        o.elements_added = 2 ** 64 - 1 + (hc - 1)
-        ctx.feat("element_counter_at_64bit_limit" if hc == 1 else "element_counter_above_64bit_limit")
+        if hc == 7:
+            o.elements_added = -1  # the count a saturated union / intersection result carries (open finding KF_SATURATED_SETOP)
+            ctx.feat("element_counter_minus_one")
+        else:
+            o.elements_added = 2 ** 64 - 1 + (hc - 1)
+            ctx.feat("element_counter_at_64bit_limit" if hc == 1 else "element_counter_above_64bit_limit")
     exportable = 0 <= o.elements_added <= 2 ** 64 - 1
     if not exportable:
         ctx.feat("saturated_setop_state_bytes_not_used")
@@ -191,7 +195,7 @@ def _bloom_target(ctx, d, counting, case):
         reads += [("bytes", lambda k, dep: bytes(o)), ("export_path", exp_path), ("export_fileobj", exp_fileobj),
                   ("export_hex", lambda k, dep: o.export_hex()),
                   ("export_c_header", lambda k, dep: o.export_c_header(os.path.join(tmp, "h.h")))]
-    if not exportable and o.elements_added > 2 ** 64 - 1:
+    if not exportable:  # (above the field's range, or the -1 / negative count of a set-operation product: open findings of C05)
         import struct
 
         def tolerant(fn):
